@@ -93,6 +93,8 @@ def chk_idcar(case, note):
         if (head ^ code) & 1:
             variants.prelude(pms, msg)  # address / parity of the same string looked at first, as a receiver does
         for nm, fn in fns:
+            if (head ^ code) & 8:
+                variants.damaged_calls(fn, msg)
             r = call(fn, msg)
             n += 1
             if r != ("ok", exp):
